@@ -2,6 +2,7 @@
 package c17
 
 import (
+	"strings"
 	"bytes"
 	"fmt"
 	"time"
@@ -52,6 +53,7 @@ func init() {
 			{Name: "fanout-survey-inproc", Mode: "sched", Bound: b, Cfg: pool, Reset: kit.ResetGlobals, Body: fanoutSurvey},
 			{Name: "star-hub-stalled-member-ownership", Mode: "enum", Reset: kit.ResetGlobals, Body: func() { ledger.Install(); c08.StarStalled() }},
 			{Name: "req-retained-request-loss", Mode: "hist", Reset: kit.ResetGlobals, Body: reqRetained},
+			{Name: "send-vs-last-peer-leaving", Mode: "sched", Bound: b, Reset: kit.ResetGlobals, Body: sendVsLeaving},
 			{Name: "pub-pipe-fails-mid-send", Mode: "sched", Bound: b, Reset: kit.ResetGlobals, Body: pubPipeFails},
 			{Name: "fanout-stream-write-error", Mode: "sched", Bound: b - 1, Reset: kit.ResetGlobals, Body: streamWriteError},
 		}
@@ -146,6 +148,55 @@ func clip(b []byte) string {
 		return string(b[:24]) + "..."
 	}
 	return string(b)
+}
+
+// sendVsLeaving: FailNoPeers is set and the only peer leaves while SendMsg is running.  Whatever
+// the interleaving, the outcome is one or the other: SendMsg returned nil and the library owns the
+// message, or it returned an error and the message is the caller's alone - intact, never
+// transmitted later (a second peer connects and takes everything), never released by the library.
+func sendVsLeaving() {
+	k := kinds.ByName([]string{"push", "xpush", "req", "xreq"}[kit.ChooseFree(4)])
+	ledger.Install()
+	x := k.Open("c17l", true, false)
+	x.Quiet()
+	if err := x.S.SetOption(mangos.OptionFailNoPeers, true); err != nil {
+		return
+	}
+	body := payload("leaving", 100)
+	m := x.Msg(body)
+	c := kit.Start("SendMsg", func() (interface{}, error) { return nil, x.S.SendMsg(m) })
+	x.P.DropNow()
+	kit.Quiesce()
+	if !c.Done() {
+		// queued for a peer to come: fine, the library has it
+		kit.Observe("%s waiting", k.Name)
+	}
+	failed := c.Done() && c.Err != nil
+	if failed {
+		if ledger.Owned(m) != 1 {
+			kit.Failf("failed-send-ownership:"+k.Name+":peer-leaving", "%s: SendMsg failed with %s while the last peer was leaving, but the message now has %d owner(s) (released=%v)", k.Name, kit.ErrName(c.Err), ledger.Owned(m), ledger.Released(m))
+		}
+		if string(m.Body) != body {
+			kit.Failf("failed-send-body:"+k.Name+":peer-leaving", "%s: SendMsg failed with %s and the body was changed", k.Name, kit.ErrName(c.Err))
+		}
+	}
+	p2 := x.EP.Connect()
+	kit.Quiesce()
+	kit.Sleep(100 * time.Millisecond)
+	kit.Quiesce()
+	if failed {
+		for _, sm := range p2.SentLog() {
+			if strings.Contains(string(sm.Data), body) {
+				kit.Failf("failed-send-transmitted:"+k.Name, "%s: SendMsg returned %s (the message stays with the caller), yet the message was transmitted to the next peer that connected", k.Name, kit.ErrName(c.Err))
+			}
+		}
+		if ledger.Owned(m) != 1 || string(m.Body) != body {
+			kit.Failf("failed-send-ownership:"+k.Name+":peer-leaving", "%s: after SendMsg failed with %s the message has %d owner(s) (released=%v), body intact=%v", k.Name, kit.ErrName(c.Err), ledger.Owned(m), ledger.Released(m), string(m.Body) == body)
+		}
+		m.Free()
+	}
+	kit.Observe("%s %v %s", k.Name, c.Done(), kit.ErrName(c.Err))
+	kit.Must("Close", func() { _ = x.S.Close() })
 }
 
 // sendOutcomes: on failure the message stays with the caller, intact; on success the library owns it.
